@@ -35,9 +35,7 @@ theorem runSteps_identity (m : Mode) (w : World) (steps : List Step) :
 
 theorem recover_font (m : Mode) (w : World) : (recover m w).font = w.font := by
   unfold recover
-  split
-  · split <;> rfl
-  · rfl
+  split <;> rfl
 
 /-- Whatever step fails, in whatever mode: the font keeps its path and format, still reports
 the dirty state it had (so it is still dirty if anything was pending), and its in-memory content
@@ -148,7 +146,7 @@ theorem destination_untouched (w : World) (p k q : Nat) (ha : w.aside = none)
     cases hl : lookup w.disk p with
     | none => simp only; exact lookup_remove_of_none w.disk p q hl
     | some u =>
-      simp only [lookup_remove_self, Option.isNone_none, if_true]
+      simp only
       by_cases hq : q = p
       · subst hq; rw [lookup_store_self, hl]
       · rw [lookup_store_ne _ _ _ _ hq, lookup_remove_ne _ _ _ hq]
